@@ -1,16 +1,15 @@
 SPECIFICATION Spec
 CONSTANTS
-  NSites = 7
-  GeomSel = {"np2x"}
+  NSites = 5
+  GeomSel = {"np1", "np2x"}
   ExportSites = 5
-  MaxCalls = 1
-  LabelWrites = "none"
-  Variant = "orig"
+  MaxCalls = 2
+  LabelWrites = "marks"
+  Variant = "fixed"
 INVARIANT Untouched
 INVARIANT Repaired
 INVARIANT OrderIndependent
 INVARIANT NoSecondHand
 INVARIANT ZeroCase
 INVARIANT NotYet
-INVARIANT LabelsKept
 CHECK_DEADLOCK FALSE
